@@ -222,7 +222,7 @@ def f2(tier, rnd) -> List[Desc]:
             if shape != 'rest':
                 pk.append(_array_packet(f'A_{shape}_t', elem, shape, None, 'before'))
         ename = elem if isinstance(elem, str) else f'u{elem}'
-        out.extend(both(Desc(f'f2_{ename}', _le(decls + pk), 'F2')))
+        out.extend(both(Desc(f'f2_{ename}', _le(decls + pk), 'F2', core=(elem == 24))))
         # padded variants; 'rest' inside a padding is not round-trippable (padding becomes elements)
         pk = []
         padsz = 6 if elem != 64 else 16
@@ -488,6 +488,7 @@ CORE_KINDS = {
     'f4_wide_constraint': {'Frame': ['c06d'], 'Ping': ['c06v', 'c03']},
     'f7_forward': {'Nest': ['c03']},
     'f7_custom16': {'C': ['c01'], 'C2': ['c03']},
+    'f2_u24': {'A_count': ['c05', 'c02'], 'A_static': ['c03']},
 }
 
 
